@@ -54,18 +54,20 @@ Print Assumptions C13_gen_parse_site_guarded.
 
 (* the per-input handler of parse_input and the pointer-update handlers report exactly these classes in check mode
    (a narrowed except tuple or a handler that re-raises breaks this) *)
-Definition warned_at (sname : string) (c : cls) : option bool := warned_by H hs (site_chain gen_tables sname) c.
+Definition warned_at (sname : string) (c : cls) : option (cls * bool) := warned_by H hs (site_chain gen_tables sname) c.
 Theorem C13_gen_check_handlers :
   (forall c, In c ["MalformedInputError"; "ParsingError"; "BrokenObjectLinkError"; "NumberConflictError"; "UnknownElement"] ->
-     forall s, In s ["construct"; "tree_none"; "link"; "append"] -> warned_at s c = Some false)
-  /\ (forall s, In s ["parse"; "construct"; "syntax"; "read_card"] -> warned_at s "UnsupportedFeature" = Some true)
+     forall s, In s ["construct"; "tree_none"; "link"; "append"] -> warned_at s c = Some (c, false))
+  /\ warned_at "parse" "ValueError" = Some ("MalformedInputError", false)
+  /\ (forall s, In s ["parse"; "construct"; "syntax"; "read_card"] ->
+        warned_at s "UnsupportedFeature" = Some ("UnsupportedFeature", true))
   /\ (forall c, In c ["BrokenObjectLinkError"; "MalformedInputError"; "ParticleTypeNotInProblem"; "ParticleTypeNotInCell"] ->
-        warned_at "cell_pointers" c = Some false /\ warned_at "data_pointers" c = Some false)
+        warned_at "cell_pointers" c = Some (c, false) /\ warned_at "data_pointers" c = Some (c, false))
   /\ (forall c, In c ["BrokenObjectLinkError"; "ParticleTypeNotInProblem"; "ParticleTypeNotInCell"] ->
-        warned_at "surface_pointers" c = Some false)
-  /\ warned_at "cells_modifiers" "MalformedInputError" = Some false
-  /\ warned_at "cells_merge" "MalformedInputError" = Some false
-  /\ warned_at "cells_once" "MalformedInputError" = Some false.
+        warned_at "surface_pointers" c = Some (c, false))
+  /\ warned_at "cells_modifiers" "MalformedInputError" = Some ("MalformedInputError", false)
+  /\ warned_at "cells_merge" "MalformedInputError" = Some ("MalformedInputError", false)
+  /\ warned_at "cells_once" "MalformedInputError" = Some ("MalformedInputError", false).
 Proof.
   repeat split; intros; cbn [In] in *;
     repeat match goal with
@@ -135,13 +137,13 @@ Print Assumptions C13_none_tree.
 
 (* 3. CHECK MODE, any chain: a class the chain catches first with a warn-or-reraise clause becomes exactly one
       warning in check mode, whatever raised it *)
-Theorem C13_check_mode : forall chain c b org,
-  warned_by H hs chain c = Some b -> route H hs true chain (mkexn c org) = [Warned c b].
+Theorem C13_check_mode : forall chain c org d b,
+  warned_by H hs chain c = Some (d, b) -> route H hs true chain (mkexn c org) = [Warned d b].
 Proof. exact (warned_by_sound H hs). Qed.
 Print Assumptions C13_check_mode.
 
 Example C13_check_mode_example :
-  warned_by H hs (site_chain gen_tables "cell_pointers") "BrokenObjectLinkError" = Some false /\
+  warned_by H hs (site_chain gen_tables "cell_pointers") "BrokenObjectLinkError" = Some ("BrokenObjectLinkError", false) /\
   route H hs true (site_chain gen_tables "cell_pointers") (mkexn "BrokenObjectLinkError" Deliberate)
     = [Warned "BrokenObjectLinkError" false].
 Proof. vm_compute. auto. Qed.
